@@ -28,7 +28,10 @@ pub struct PanicInfo {
 impl PanicInfo {
     /// panics raised by harness code (a harness defect) as opposed to the crate under test
     pub fn in_harness(&self) -> bool {
-        self.file.contains("harness/src") || self.file.contains("cosetmon")
+        // the harness is the crate being compiled, so its own files are reported relative to its
+        // manifest ("src/gen.rs"); coset is a path dependency elsewhere and its files, like those of
+        // the registry crates and of the standard library, are reported with absolute paths
+        !self.file.starts_with('/') || self.file.contains("harness/src") || self.file.contains("cosetmon")
     }
     pub fn site(&self) -> String {
         // keep only the path below src/ so that the signature survives a different checkout root
@@ -73,13 +76,25 @@ pub fn install_panic_hook() {
 pub fn guard<T>(f: impl FnOnce() -> T) -> Result<T, PanicInfo> {
     match catch_unwind(AssertUnwindSafe(f)) {
         Ok(v) => Ok(v),
-        Err(_) => Err(LAST_PANIC
-            .with(|p| p.borrow_mut().take())
-            .unwrap_or(PanicInfo {
-                msg: "<no info>".into(),
-                file: "<unknown>".into(),
-                line: 0,
-            })),
+        Err(payload) => {
+            let info = LAST_PANIC.with(|p| p.borrow().clone()).unwrap_or(PanicInfo { msg: "<no info>".into(), file: "<unknown>".into(), line: 0 });
+            // A panic raised by the harness's own code inside a guarded closure is a harness defect, not
+            // an observation about the crate: let it travel on to the runner, which records it as a
+            // harness error (inconclusive), instead of handing it to an oracle as a crate panic.
+            if info.in_harness() {
+                std::panic::resume_unwind(payload);
+            }
+            LAST_PANIC.with(|p| p.borrow_mut().take());
+            Err(info)
+        }
+    }
+}
+
+/// the outermost guard around one case (the runner's): harness panics stop here
+pub fn guard_case<T>(f: impl FnOnce() -> T) -> Result<T, PanicInfo> {
+    match catch_unwind(AssertUnwindSafe(f)) {
+        Ok(v) => Ok(v),
+        Err(_) => Err(LAST_PANIC.with(|p| p.borrow_mut().take()).unwrap_or(PanicInfo { msg: "<no info>".into(), file: "<unknown>".into(), line: 0 })),
     }
 }
 
@@ -395,7 +410,7 @@ pub fn run_check(chk: &dyn Check, tier: Tier, seed: u64, budget: f64, max_s: f64
                                 }
                             }
                             ctx.begin_case(pi, idx);
-                            let r = guard(|| chk.run_case(&mut ctx, pi, idx));
+                            let r = guard_case(|| chk.run_case(&mut ctx, pi, idx));
                             if let Err(p) = r {
                                 if p.in_harness() {
                                     ctx.harness_errors.push(format!(
